@@ -566,10 +566,15 @@ class LFRicLoop(PSyLoop):
                 if (not arg.discontinuous and
                         self.kernel.iterates_over == "cell_column" and
                         self.kernel.all_updates_are_writes and
+                        not any(karg.discontinuous for karg in
+                                self.kernel.args if karg.is_field and
+                                karg.access == AccessType.WRITE) and
                         self._upper_bound_name == "ncells"):
                     # This is the special case of a kernel that guarantees to
                     # write the same value to any given dof, irrespective of
-                    # cell column.
+                    # cell column. (If the kernel also writes to a field on
+                    # a discontinuous space then those values may depend
+                    # upon the annexed dofs of this argument.)
                     return False
                 if not arg.discontinuous and \
                    self._upper_bound_name in ["ncells", "nannexed"]:
